@@ -281,8 +281,30 @@ def rule_r4(facts, col, bodies=None):
         key = "%s:join" % body.q
         joins = [bb for bb, t in body.calls_to(JOIN)]
         if not joins:
+            # the join loop may have been extracted into a method of the runner: every path from a spawn to return must
+            # pass a call to it, and the loop is judged inside it
+            helpers = [hb for hb in adt_helpers(facts, body) if list(hb.calls_to(JOIN))]
+            hcalls = [bb for bb, t in body.calls() if any(q in {h.q for h in helpers} for q in Body.callee_qs(t))]
+            if helpers and hcalls:
+                bypass = False
+                for sp in spawns:
+                    r = body.reachable(sp, avoid=set(hcalls))
+                    if any(body.term(x)["k"] == "return" for x in r):
+                        bypass = True
+                if bypass:
+                    col.bad("C07.R4", key, body.where(spawns[0]), "a path from spawn to return bypasses the call that joins the threads", {})
+                    continue
+                rule_r4_loops(col, helpers[0], key, spawns_in_body=False)
+                continue
             col.bad("C07.R4", key, body.where(spawns[0]), "threads are spawned but never joined", {})
             continue
+        rule_r4_loops(col, body, key, spawns=spawns)
+
+
+def rule_r4_loops(col, body, key, spawns=(), spawns_in_body=True):
+    JOIN = "std::thread::JoinHandle::join"
+    if True:
+        joins = [bb for bb, t in body.calls_to(JOIN)]
         problems = []
         for jbb in joins:
             comp = scc_of(body, jbb)
@@ -480,15 +502,30 @@ def _slot_state_search(body, slot, starts):
     return at_term
 
 
+def _with_helpers(facts, bodies):
+    out = list(bodies)
+    seen = {b.path for b in out}
+    for b in list(bodies):
+        if b.kind == "closure":
+            continue
+        for hb in adt_helpers(facts, b):
+            if hb.path not in seen:
+                seen.add(hb.path)
+                out.append(hb)
+    return out
+
+
 def rule_r6(facts, col, bodies=None):
     """errors of joined block threads are kept: on the Err arm of a joined result the error either is returned at once or
     ends up in an Option slot that is Some when the arm is left (whatever the slot held before), and once the slot is Some the
     code after the loop returns it"""
-    for body in (bodies if bodies is not None else runner_bodies(facts)):
+    for body in _with_helpers(facts, bodies if bodies is not None else runner_bodies(facts)):
         wsites = {ws.wbb for ws in work_sites(facts, body)}
         for bb, t, l in error_sources(body):
             if bb in wsites:
                 continue
+            if (t["f"].get("q") or "") in {h.q for h in adt_helpers(facts, body)}:
+                continue      # the call to the extracted helper itself: judged inside the helper, its `?` by R2
             key = "%s:%s:kept" % (body.q, (t["f"].get("q") or "?").split("::")[-1])
             # the Err arm of this result
             err_t = None
